@@ -126,7 +126,8 @@ def safe_execute(prop_id: str, obl: Obligation, case, timeout: float | None = No
         def _alarm(signum, frame):
             raise CaseTimeout()
         old = signal.signal(signal.SIGALRM, _alarm)
-        signal.setitimer(signal.ITIMER_REAL, timeout)
+        # repeating: a first CaseTimeout raised where exceptions are ignored (a __del__, a gc callback) must not disarm the watchdog
+        signal.setitimer(signal.ITIMER_REAL, timeout, 2.0)
     try:
         res = obl.execute(case)
         if not isinstance(res, Result):
@@ -144,6 +145,13 @@ def safe_execute(prop_id: str, obl: Obligation, case, timeout: float | None = No
         raise
     except Exception as e:  # noqa: BLE001
         where = _raised_in_repo(e.__traceback__)
+        if where is None and isinstance(e, MemoryError):
+            # the address-space limit of the worker (see worker()) was hit outside the tree under test: not a verdict
+            r = Result()
+            r.labels.append("inconclusive-memory")
+            r.observed = "memory"
+            r._inconclusive = True
+            return r
         if where is None:
             raise HarnessError(
                 f"{prop_id}/{obl.name}: harness exception {type(e).__name__}: {e}\n"
@@ -215,6 +223,14 @@ def worker(args):
     prop_id, oname, tier, seed, n, shard, mode = args
     t0 = time.time()
     acc = _new_acc()
+    try:
+        import resource
+        lim = int(os.environ.get("VFW_WORKER_AS_GB", "8")) << 30
+        soft, hard = resource.getrlimit(resource.RLIMIT_AS)
+        if soft == resource.RLIM_INFINITY or soft > lim:
+            resource.setrlimit(resource.RLIMIT_AS, (lim, hard))     # runaway growth becomes a MemoryError instead of an OOM kill
+    except (ImportError, ValueError, OSError):
+        pass
     try:
         obl = next(o for o in get_obligations(prop_id) if o.name == oname)
         timeout = obl.case_timeout.get(tier, 20.0)
